@@ -9,6 +9,9 @@ COMMON := -std=c++17 -I$(REPO)/include -I/usr/include/eigen3 -Isim/seam -Isim -D
 ASAN_FLAGS := -O1 -g1 -fsanitize=address,undefined -fsanitize-recover=address -fno-sanitize=vptr
 TSAN_FLAGS := -O1 -g1 -fsanitize=thread -DSIM_TSAN=1
 PLAIN_FLAGS := -O2 -g1
+# C20: the translation units that instantiate the library (and only those) additionally call back at every
+# basic-block edge, so that the seeded scheduler can pre-empt a task anywhere inside Spectra/Eigen code
+TSAN_LIB_EXTRA := -fsanitize-coverage=trace-pc-guard
 
 CORE_SRC := $(wildcard sim/core/*.cpp) $(wildcard sim/oracle/*.cpp) $(wildcard sim/engine/*.cpp) sim/world/matgen.cpp sim/world/registry.cpp
 FAM_SRC := $(wildcard sim/world/fam_*.cpp)
@@ -20,14 +23,14 @@ define VARIANT
 $(1)_OBJ := $$(patsubst sim/%.cpp,$(BUILD)/$(1)/%.o,$$(SRC))
 $(BUILD)/$(1)/%.o: sim/%.cpp
 	@mkdir -p $$(dir $$@)
-	$$(CXX) $$(COMMON) $$(if $$(filter $$<,$$(UNINSTR)),$$(PLAIN_FLAGS),$(2)) -c $$< -o $$@
+	$$(CXX) $$(COMMON) $$(if $$(filter $$<,$$(UNINSTR)),$$(PLAIN_FLAGS),$(2) $$(if $$(filter $$<,$$(FAM_SRC)),$(3))) -c $$< -o $$@
 $(BUILD)/$(1)/sim: $$($(1)_OBJ)
 	$$(CXX) $(2) $$^ -o $$@ -lpthread
 -include $$($(1)_OBJ:.o=.d)
 endef
 
 $(eval $(call VARIANT,asan,$(ASAN_FLAGS)))
-$(eval $(call VARIANT,tsan,$(TSAN_FLAGS)))
+$(eval $(call VARIANT,tsan,$(TSAN_FLAGS),$(TSAN_LIB_EXTRA)))
 $(eval $(call VARIANT,plain,$(PLAIN_FLAGS)))
 
 .PHONY: all asan tsan plain clean
